@@ -70,8 +70,8 @@ class Fn:
 
     def __init__(self, tr, qual, node, params):
         self.tr, self.qual, self.node, self.params = tr, qual, node, params
-        self.types = dict(params)
-        self.order = [p for p, _ in params]     # field order: params, then locals in order of first assignment
+        self.types = dict(params or [])
+        self.order = [p for p, _ in (params or [])]     # field order: params, then locals in order of first assignment
         self.ret = None
         self.loops = []                          # generated loop definitions (text)
         self.nfresh = 0
@@ -302,11 +302,11 @@ class Fn:
             if ti != 'int':
                 self.fail(e, 'index is not an integer')
             if not (oa or oi):
-                return '(pyIdx %s %s)' % (a, i), 'rat', True
+                return '(%s %s %s)' % (self.tr.IDX, a, i), 'rat', True
             va, vi = self.fresh(), self.fresh()
             aa = a if oa else 'some (%s)' % a
             ii = i if oi else 'some (%s)' % i
-            return '(Option.bind (%s) fun %s => Option.bind (%s) fun %s => pyIdx %s %s)' % (aa, va, ii, vi, va, vi), 'rat', True
+            return '(Option.bind (%s) fun %s => Option.bind (%s) fun %s => %s %s %s)' % (aa, va, ii, vi, self.tr.IDX, va, vi), 'rat', True
         if isinstance(e, ast.Call):
             return self.cx_call(e)
         self.fail(e, 'expression %s' % type(e).__name__)
@@ -353,6 +353,40 @@ class Fn:
         else:
             self.fail(e, 'call target')
         args = e.args
+        if self.tr.pyx:
+            if name in ('_mv', 'np.asarray') and len(args) == 1:
+                c, t, o = self.cx(args[0])
+                if t != 'arr': self.fail(e, '%s of non-array' % name)
+                return c, t, o
+            if name == 'float' and len(args) == 1:
+                c, t, o = self.cx(args[0])
+                if t not in ('int', 'rat'): self.fail(e, 'float() of %s' % t)
+                if t == 'rat': return c, t, o
+                code, oo = self.lift([(c, o)], lambda n: self.to_rat(n[0], 'int')); return code, 'rat', oo
+            if name == 'int' and len(args) == 1:
+                c, t, o = self.cx(args[0])
+                if t == 'bool':
+                    code, oo = self.lift([(c, o)], lambda n: '(if %s then (1 : Int) else 0)' % n[0]); return code, 'int', oo
+                if t != 'int': self.fail(e, 'int() of %s' % t)
+                return c, t, o
+            if name in ('fmax', 'fmin') and len(args) == 2:
+                vals = [self.cx(a) for a in args]
+                if not {t for _, t, _ in vals} <= {'int', 'rat'}: self.fail(e, '%s of non-numbers' % name)
+                fn = name[1:]
+                code, o = self.lift([(c, oo) for c, _, oo in vals],
+                                    lambda n: '(%s %s %s)' % (fn, self.to_rat(n[0], vals[0][1]), self.to_rat(n[1], vals[1][1])))
+                return code, 'rat', o
+            if name == 'fabs' and len(args) == 1:
+                c, t, o = self.cx(args[0])
+                if t not in ('int', 'rat'): self.fail(e, 'fabs of %s' % t)
+                code, oo = self.lift([(c, o)], lambda n: '(pyAbs %s)' % self.to_rat(n[0], t)); return code, 'rat', oo
+            if name == '_cdiv' and len(args) == 2:
+                vals = [self.cx(a) for a in args]
+                if not {t for _, t, _ in vals} <= {'int', 'rat'}: self.fail(e, 'division of non-numbers')
+                if all(t == 'int' for _, t, _ in vals): self.fail(e, 'C integer division')
+                code, o = self.lift([(c, oo) for c, _, oo in vals],
+                                    lambda n: '(%s / %s)' % (self.to_rat(n[0], vals[0][1]), self.to_rat(n[1], vals[1][1])))
+                return code, 'rat', o
         if name == 'len' and len(args) == 1:
             a, ta, oa = self.cx(args[0])
             if ta != 'arr': self.fail(e, 'len of non-array')
@@ -451,6 +485,15 @@ class Fn:
             return self.block(rest, ind, assigned)
         if isinstance(s, ast.FunctionDef):
             return self.block(rest, ind, assigned)          # hoisted
+        if isinstance(s, ast.Assert):
+            c, tc, oc = self.cxr(s.test, assigned)
+            if tc != 'bool':
+                self.fail(s, 'assert of a non-boolean')
+            restc = self.block(rest, ind, assigned)
+            if oc:
+                v = self.fresh()
+                return pad + 'Flow.ofOpt (%s) fun %s =>\n%sif %s then\n%s\n%selse Flow.err' % (c, v, pad, v, restc, pad)
+            return pad + 'if %s then\n%s\n%selse Flow.err' % (c, restc, pad)
         if isinstance(s, ast.Return):
             if s.value is None:
                 self.fail(s, 'return without value')
@@ -473,8 +516,12 @@ class Fn:
             return pad + 'Flow.ret %s' % code
         if isinstance(s, (ast.Assign, ast.AugAssign)):
             return self.assign(s, rest, ind, assigned)
+        if isinstance(s, ast.If) and isinstance(s.test, ast.Constant) and s.test.value is True and not s.orelse:
+            return self.block(list(s.body) + rest, ind, assigned)          # `with nogil:` block
         if isinstance(s, ast.If):
             c, tc, oc = self.cxr(s.test, assigned)
+            if tc == 'int' and self.tr.pyx:
+                c, oc2 = self.lift([(c, oc)], lambda n: 'decide (%s ≠ 0)' % n[0]); tc, oc = 'bool', oc2
             if tc != 'bool':
                 self.fail(s, 'condition is not boolean')
             a1, a2 = set(assigned), set(assigned)
@@ -516,8 +563,14 @@ class Fn:
             bound_names = {n.id for n in ast.walk(bound) if isinstance(n, ast.Name)}
             if i in written or (bound_names & written):
                 self.fail(s, 'loop variable or bound assigned in the loop body')
+            def uses(node):
+                if isinstance(node, ast.For) and isinstance(node.target, ast.Name) and node.target.id == i:
+                    return any(isinstance(n, ast.Name) and n.id == i for n in ast.walk(node.iter))
+                if isinstance(node, ast.Name) and node.id == i:
+                    return True
+                return any(uses(ch) for ch in ast.iter_child_nodes(node))
             for later in rest:
-                if any(isinstance(n, ast.Name) and n.id == i for n in ast.walk(later)):
+                if uses(later):
                     self.fail(s, 'loop variable used after the loop')
             init = ast.Assign(targets=[ast.Name(id=i, ctx=ast.Store())], value=ast.Constant(value=0), lineno=s.lineno)
             test = ast.Compare(left=ast.Name(id=i, ctx=ast.Load()), ops=[ast.Lt()], comparators=[bound])
@@ -605,7 +658,7 @@ class Fn:
                     if oi:
                         v = self.fresh(); lines.append(pad + 'Flow.ofOpt (%s) fun %s =>' % (i, v)); i = v
                     v = self.fresh()
-                    lines.append(pad + 'Flow.ofOpt (pySet st.%s %s %s) fun %s =>' % (lname(arr), i, c, v))
+                    lines.append(pad + 'Flow.ofOpt (%s st.%s %s %s) fun %s =>' % (self.tr.SET, lname(arr), i, c, v))
                     stores.append(('name', arr, v))
             else:
                 self.fail(s, 'assignment target')
@@ -640,12 +693,45 @@ class Fn:
         return k
 
     # ---------- whole function
+    def strip_coercions(self):
+        """pyx mode: the transliterator turns the C parameter types into leading statements
+        `x = _mv(x)` / `x = float(x)` / `x = int(x)`; they ARE the signature"""
+        names = [x.arg for x in self.node.args.args]
+        types = {}
+        body = list(self.node.body)
+        k = 0
+        while k < len(body):
+            st_ = body[k]
+            if isinstance(st_, ast.Expr) and isinstance(st_.value, ast.Constant):
+                k += 1; continue
+            if (isinstance(st_, ast.Assign) and len(st_.targets) == 1 and isinstance(st_.targets[0], ast.Name)
+                    and isinstance(st_.value, ast.Call) and isinstance(st_.value.func, ast.Name)
+                    and st_.value.func.id in ('_mv', 'float', 'int') and len(st_.value.args) == 1
+                    and isinstance(st_.value.args[0], ast.Name) and st_.value.args[0].id == st_.targets[0].id
+                    and st_.targets[0].id in names and st_.targets[0].id not in types):
+                types[st_.targets[0].id] = {'_mv': 'arr', 'float': 'rat', 'int': 'int'}[st_.value.func.id]
+                del body[k]
+                continue
+            break
+        missing = [n for n in names if n not in types]
+        for n in missing:
+            # an untyped parameter is a Python object; every call site is type-checked against this
+            # choice (`cx_call`), so a caller passing anything but a double is rejected
+            types[n] = 'rat'
+        self.untyped = missing
+        self.node.body = body
+        self.params = [(n, types[n]) for n in names]
+        self.types = dict(self.params)
+        self.order = list(names)
+
     def translate(self):
         node = self.node
         a = node.args
         if a.vararg or a.kwarg or a.kwonlyargs or a.posonlyargs:
             self.fail(node, 'argument kinds')
         names = [x.arg for x in a.args]
+        if self.params is None:
+            self.strip_coercions()
         if names != [p for p, _ in self.params]:
             self.fail(node, 'parameter list %s differs from the signature table %s' % (names, [p for p, _ in self.params]))
         out = []
@@ -715,6 +801,9 @@ class Fn:
 
 
 class Translator:
+    pyx = False
+    IDX, SET = 'pyIdx', 'pySet'
+
     def __init__(self, repo):
         self.repo = repo
         self.fns = {}
@@ -755,14 +844,69 @@ class Translator:
         return '\n'.join(out)
 
 
+class PyxTranslator(Translator):
+    """the Cython sources, through harness/pyx2py.py (C types → coercions, `/` → `_cdiv`, libc fmax/fmin/fabs,
+    `with nogil` → block) and then the same statement/expression translation, with C indexing: a negative or
+    out-of-range index is an error (undefined behaviour under boundscheck=False, wraparound=False)"""
+    pyx = True
+    IDX, SET = 'cIdx', 'cSet'
+    SKIP = {'spike_distance_rf_cython': 'dead code: never called by the API',
+            'isi_avrg_rf_cython': 'dead code: helper of spike_distance_rf_cython'}
+
+    def run(self):
+        from . import pyx2py
+        out = ['/-\n  Gen/BackendPyx.lean — GENERATED by harness/py2lean.py from the Cython sources of /repo\n'
+               '  (pyspike/cython/*.pyx, transliterated by harness/pyx2py.py). Do not edit.\n-/\n'
+               'import PySpikeVerif.Gen.Prelude\n'
+               'set_option linter.unusedVariables false\n'
+               'namespace PySpike.GenPyx\nopen PySpike.Gen\n']
+        mapping = {n: 'pyx_' + n for n in pyx2py.PYX_FILES}
+        exported = {}
+        for mod in pyx2py.PYX_FILES:
+            path = os.path.join(self.repo, 'pyspike', 'cython', mod + '.pyx')
+            try:
+                code = pyx2py.translate(open(path).read(), mapping)
+            except pyx2py.Untranslatable as ex:
+                raise Untranslatable('%s.pyx: %s' % (mod, ex))
+            tree = ast.parse(code)
+            out.append('-- ' + '=' * 70 + '\n-- pyspike/cython/%s.pyx\n' % mod)
+            self.fns = {}
+            for node in tree.body:
+                if isinstance(node, ast.ImportFrom) and node.module and node.module.startswith('pyx_'):
+                    for al in node.names:
+                        src_mod = node.module[4:]
+                        if (src_mod, al.name) not in exported:
+                            raise Untranslatable('%s.pyx imports unknown %s.%s' % (mod, src_mod, al.name))
+                        self.fns[al.asname or al.name] = exported[(src_mod, al.name)]
+            seen_prelude_end = False
+            for node in tree.body:
+                if not isinstance(node, ast.FunctionDef):
+                    continue
+                if node.name.startswith('_') or node.name in ('fabs', 'fmax', 'fmin'):
+                    continue
+                if node.name in self.SKIP:
+                    out.append('-- %s: not translated (%s)\n' % (node.name, self.SKIP[node.name]))
+                    continue
+                fn = Fn(self, mod + '.' + node.name, node, None)
+                out.append(fn.translate())
+                self.fns[node.name] = fn
+                exported[(mod, node.name)] = fn
+        out.append('end PySpike.GenPyx\n')
+        return '\n'.join(out)
+
+
 def generate(repo='/repo'):
     return Translator(repo).run()
+
+
+def generate_pyx(repo='/repo'):
+    return PyxTranslator(repo).run()
 
 
 if __name__ == '__main__':
     repo = sys.argv[1] if len(sys.argv) > 1 else '/repo'
     try:
-        sys.stdout.write(generate(repo))
+        sys.stdout.write(generate_pyx(repo) if (len(sys.argv) > 2 and sys.argv[2] == 'pyx') else generate(repo))
     except Untranslatable as ex:
         sys.stderr.write('Untranslatable: %s\n' % ex)
         sys.exit(3)
